@@ -1,5 +1,47 @@
 import GrpcModel.Model.XdsAuth
+/-!
+Executable property predicates of C43 / C44 — the SAME definitions are used by the theorems in
+GrpcProofs/Properties/C43.lean, C44.lean (about the model, all histories) and by the monitor of the
+driver (evaluated on the implementation's outputs).
+-/
 namespace GrpcModel.XdsAuth.Spec
+
+/-! ### what one watcher has been told so far (C43, "never for an update identical to the one it already holds") -/
+
+structure WG where
+  holds : Option String := none   -- content of the last ResourceChanged, unless a ResourceError came after it
+  nack : Bool := false            -- a NACK was reported since the last ResourceChanged
+deriving DecidableEq, Repr, Inhabited
+
+def WG.apply (g : WG) : CbKind → WG
+  | .changed c => { holds := some c, nack := false }
+  | .resErr (.nack _) => { holds := none, nack := true }
+  | .resErr _ => { g with holds := none }
+  | .ambErr (.nack _) => { g with nack := true }
+  | .ambErr _ => g
+
+/-- the callback the property forbids: ResourceChanged with the content the watcher already holds,
+    without a NACK in between -/
+def WG.dup (g : WG) : CbKind → Bool
+  | .changed c => g.holds == some c && !g.nack
+  | _ => false
+
+/-- no forbidden callback in a sequence delivered to one watcher -/
+def okSeq (g : WG) : List CbKind → Bool
+  | [] => true
+  | k :: ks => !g.dup k && okSeq (g.apply k) ks
+
+/-- the callbacks of one watcher, in order -/
+def cbsFor (w : Nat) (cbs : List Cb) : List CbKind := (cbs.filter (·.w = w)).map (·.k)
+
+/-- the ghost a callback sequence starts from: a watcher that registers now has been told nothing -/
+def ghost0 (G : Nat → WG) (e : AEv) (w : Nat) : WG :=
+  match e with
+  | .watch _ w' => if w' = w then {} else G w
+  | _ => G w
+
+def ghostStep (G : Nat → WG) (e : AEv) (cbs : List Cb) : Nat → WG :=
+  fun w => (cbsFor w cbs).foldl WG.apply (ghost0 G e w)
 
 structure Mon where
   n : Nat := 0
